@@ -5,6 +5,7 @@ from ..core import Result
 from . import maps
 
 ID = "C03"
+ALT_BUILD = True          # a quarter of the workers run the gcc -O0 build (core.py)
 LEVEL = "exploration"
 BUDGET = {"quick": 1600, "thorough": 360000}
 RULE = ("case = op list (set/rem/get/mem/resize(0)/assign/copy/bulk fill+drain in ascending, descending and strided orders/"
